@@ -18,6 +18,13 @@ fn atoms() -> Vec<Node> {
         Node::class("[ab]"),
         Node::class("[^a]"),
         Node::class("[a ]"),
+        Node::class("[a\\-b]"),
+        Node::class("[+\\-.]"),
+        Node::class("[\\]a\\^]"),
+        Node::class("[^\\s\\d]"),
+        Node::class("[[:alpha:]&&[^b]]"),
+        Node::class("[\\x61-b]"),
+        Node::lit("-"),
         Node::class("\\w"),
         Node::class("\\s"),
         Node::class("\\d"),
@@ -184,12 +191,71 @@ pub fn run(ctx: &Ctx) -> Outcome {
         // 4-node trees: a seeded third (the full set is ~10^5 patterns x 259 texts x ~60 calls)
         let mut rng = crate::rng::Rng::new(ctx.seed ^ 0xC04);
         let four: Vec<Node> = g.of_size(4).into_iter().filter(|_| rng.chance(1, 3)).collect();
-        describe = format!("all common-syntax trees of <= 3 nodes ({}) plus a seeded third of the 4-node trees ({})", patterns.len(), four.len());
+        describe = format!("all common-syntax trees of <= 3 nodes ({}) plus a seeded third of the 4-node trees ({}) plus 60000 seeded random trees of 5-9 nodes", patterns.len(), four.len());
         patterns.extend(four);
     } else {
-        describe = format!("all common-syntax trees of <= 3 nodes ({})", patterns.len());
+        describe = format!("all common-syntax trees of <= 3 nodes ({}) plus 4000 seeded random trees of 5-9 nodes", patterns.len());
     }
-    let texts = gen::texts(&["a", "A", "b", " ", "\n", "é"], 3);
+    // seeded random larger trees (5-9 nodes) of the same grammar
+    {
+        let mut rng = crate::rng::Rng::new(ctx.seed ^ 0x4C04);
+        let at = atoms();
+        let rp = reps();
+        fn rnd(rng: &mut crate::rng::Rng, budget: usize, at: &[Node], rp: &[(u32, Option<u32>, Mode)]) -> Node {
+            if budget <= 1 {
+                return rng.pick(at).clone();
+            }
+            match rng.below(9) {
+                0 | 1 | 2 => {
+                    let l = 1 + rng.below((budget - 1) as u64) as usize;
+                    let a = rnd(rng, l, at, rp);
+                    let b = rnd(rng, budget.saturating_sub(1 + l).max(1), at, rp);
+                    let mut v = vec![];
+                    for n in [a, b] {
+                        match n {
+                            Concat(w) => v.extend(w),
+                            Empty => {}
+                            o => v.push(o),
+                        }
+                    }
+                    match v.len() {
+                        0 => Empty,
+                        1 => v.pop().unwrap(),
+                        _ => Concat(v),
+                    }
+                }
+                3 | 4 => {
+                    let l = 1 + rng.below((budget - 1) as u64) as usize;
+                    let a = rnd(rng, l, at, rp);
+                    let b = rnd(rng, budget.saturating_sub(1 + l).max(1), at, rp);
+                    let mut v = vec![];
+                    for n in [a, b] {
+                        match n {
+                            Alt(w) => v.extend(w),
+                            o => v.push(o),
+                        }
+                    }
+                    Alt(v)
+                }
+                5 => Node::group(rnd(rng, budget - 1, at, rp)),
+                6 => NonCap(Box::new(rnd(rng, budget - 1, at, rp))),
+                _ => {
+                    let c = rnd(rng, budget - 1, at, rp);
+                    if !gen::repeatable(&c) {
+                        return c;
+                    }
+                    let (lo, hi, m) = *rng.pick(rp);
+                    Repeat(Box::new(c), lo, hi, m)
+                }
+            }
+        }
+        let n = ctx.tier.pick(4_000, 60_000);
+        for _ in 0..n {
+            let b = 5 + rng.below(5) as usize;
+            patterns.push(rnd(&mut rng, b, &at, &rp));
+        }
+    }
+    let texts = gen::texts(&["a", "A", "b", " ", "\n", "é", "-"], 3);
     let acc = par_run(&patterns, true, Some(2_000_000), |_, p, acc| {
         let s = p.print();
         let fr = compile(&s);
@@ -258,7 +324,7 @@ pub fn run(ctx: &Ctx) -> Outcome {
     }
     let mut out = Outcome::new(acc);
     out.distinct_nontrivial = out.acc.distinct;
-    out.rule = format!("{} over literals a A b é space, . [ab] [^a] [a ] \\w \\s \\d, ^ $ (?m:^) (?m:$) \\b \\B \\< \\>, groups, named groups, scoped and inline flags i s m x U -i, greedy/lazy quantifiers; a pattern either crate rejects is counted and skipped; every remaining pattern x all {} texts over {{a,A,b,space,\\n,é}} up to length 3 x is_match, find, captures (+names), find_iter, captures_iter, split, splitn(0..3), replacen(0..2)/replace/replace_all with 7 templates, NoExpand and a closure. Non-trivial: a pattern with a word-boundary assertion (VM route) or a flag group that matched at least one text.", describe, texts.len());
+    out.rule = format!("{} over literals a A b é space -, . [ab] [^a] [a ] [a\\-b] [+\\-.] [\\]a\\^] [^\\s\\d] [[:alpha:]&&[^b]] [\\x61-b] \\w \\s \\d, ^ $ (?m:^) (?m:$) \\b \\B \\< \\>, groups, named groups, scoped and inline flags i s m x U -i, greedy/lazy quantifiers; a pattern either crate rejects is counted and skipped; every remaining pattern x all {} texts over {{a,A,b,space,\\n,é,-}} up to length 3 x is_match, find, captures (+names), find_iter, captures_iter, split, splitn(0..3), replacen(0..2)/replace/replace_all with 7 templates, NoExpand and a closure. Non-trivial: a pattern with a word-boundary assertion (VM route) or a flag group that matched at least one text.", describe, texts.len());
     out.assumptions = vec!["the regex crate is the oracle; both crates share regex-automata, so a fault inside it is invisible here".into()];
     let (vm, wr) = (out.acc.get("route:vm"), out.acc.get("route:wrapped"));
     out.extra = json!({"routes": {"vm": vm, "wrapped": wr}});
